@@ -308,6 +308,12 @@ SERIES = dict(year1=series_year1, greenhouse=series_greenhouse, fish=series_fish
 MODS = dict(year1=("oc",), greenhouse=("oc", "gh", "fd", "pm"), fish=("sf", "fd"), grass=("md", "fd", "uc"), feed_biofuel=("fb", "fd"), scp=("scp", "fd"), cs=("cs", "fd"), seaweed=("sw",), stored=("st", "fd"))
 
 
+def history_cases():
+    """series computed after an earlier computation of the same kind from other inputs in the same process (module- or class-level leftovers)"""
+    return [dict(kind="year1", country="XXX", after_other_run=True), dict(kind="fish", NM=48, sym="annual", after_other_run=True), dict(kind="fish", NM=48, sym="percent", after_other_run=True),
+            dict(kind="stored", sym_months=["APR", "MAY", "NOV"], untouched=1, percent=100, after_other_run=True)]
+
+
 def worker_series(case, seed):
     M = _m()
     E = Engine(seed=seed, max_paths=3000, query_timeout_ms=30000)
@@ -323,6 +329,14 @@ def worker_series(case, seed):
             E.assume(v <= hi)
             return v
         with conv(M.fd), patched(*mods, isinstance_=True, symarray=(case["kind"] == "seaweed")):
+            if case.get("after_other_run"):
+                # the same series was computed earlier in this process from OTHER inputs (own symbols): whatever that left behind must not reach this run
+                def V_other(name, lo, hi):
+                    return V("earlier_run_" + name, lo, hi)
+                try:
+                    fn(M, case, V_other)
+                except AssertionError:
+                    pass
             rows = fn(M, case, V)
         # a division by zero yields an unconstrained value in SYMX (numpy gives inf/nan): it then fails the closed-form equality below
         for label, kind, got, want in rows:
@@ -348,6 +362,11 @@ def replay_series(case, cx):
     bad = []
     try:
         with conv(M.fd), np.errstate(all="ignore"):
+            if case.get("after_other_run"):
+                try:
+                    SERIES[case["kind"]](M, case, lambda name, lo, hi: np.float64(m.get("earlier_run_" + name, (lo + hi) / 2.0)))
+                except AssertionError:
+                    pass
             rows = SERIES[case["kind"]](M, case, V)
     except AssertionError as e:
         return dict(reproduced=False, what="code's own assertion fires on this input: %s" % e)
@@ -425,6 +444,7 @@ def main(tier, seed, only=None):
     stubs = STUBS + ["food.isinstance accepts SymReal as float", "x**30 (seaweed growth) and x**e (relocation) as uninterpreted functions shared by code path and oracle",
                      "Food.conversions set to concrete nutrition settings (2100 kcal, 4.5e7 people)"]
     ser += [dict(kind="year1", country=c) for c in ("XXX", "ZAF", "JPN", "PRK", "KOR")]
+    ser += history_cases()
     groups = [
         dict(name="outdoor_crops_series", fn="worker_outdoor_c08", cases=outdoor, replay=C09.replay_outdoor,
              functions=["OutdoorCrops.calculate_monthly_production", "get_year_1_ratio_using_fraction_harvest_before_may", "assign_reduction_from_climate_impact",
